@@ -4,6 +4,7 @@ Compositional oracle: each member converted alone (real code, strictly smaller t
 """
 from __future__ import annotations
 
+import itertools
 import typing as t
 import warnings
 
@@ -386,12 +387,47 @@ def run_literals(pane, res):
             res['states'] += len(LIT_VALUES)
 
 
+def run_same_name_classes(pane, res):
+    """Serialising a union value uses a member that accepts it: two dataclasses that merely share their NAME and field names (two
+    modules, two versions) are different members - an instance of the later one is written in ITS layout and names."""
+    def mk(**opts):
+        return grammar.pin(type('Settings', (pane.PaneBase,), {'__annotations__': {'max_size': int, 'min_size': int}, 'min_size': 0,
+                                                                '__module__': 'mc.generated'}, **opts))
+    variants = [('plain', mk()), ('kebab', mk(rename='kebab')), ('tuple', mk(out_format='tuple', in_format=('tuple', 'struct'))),
+                ('scream', mk(out_rename='scream', in_rename=('scream', 'snake')))]
+    for (na, A), (nb, B) in itertools.permutations(variants, 2):
+        grammar.fresh_typing()
+        U = grammar.pin(t.Union[A, B])
+        x = B.make_unchecked(max_size=3, min_size=1)
+        info = {'ai': -2, 'bi': 0, 'ci': None, 'A': f"Settings[{na}]", 'B': f"Settings[{nb}]", 'C': None}
+        res['states'] += 1
+        res['evals'] += 1
+        res['validated'] += 1
+        res['transitions'] += 2
+        res['nontrivial'].add(f"same_name|{na}|{nb}")
+        try:
+            want = pane.into_data(x, B)
+            got = pane.into_data(x, U)
+            # (which member READS that form back is the untagged ambiguity and not judged here: the earlier class may take it too)
+            ok = values.typed_eq(got, want) or got == want
+            shown = f"into_data -> {core.srepr(got, 70)}; its own class writes {core.srepr(want, 70)}"
+        except BaseException as e:  # noqa
+            if isinstance(e, (KeyboardInterrupt, SystemExit)):
+                raise
+            ok, shown = False, f"raised {type(e).__name__}: {core.sstr(e, 100)}"
+        if not ok:
+            core.add_violation(res, {'kind': 'serialised_as_the_other_class', 'A': info['A'], 'B': info['B']},
+                               f"an instance of the second of two dataclasses that share the name 'Settings' ({nb} options) in Union[{na}, {nb}]: {shown}",
+                               dict(info, form='same_name', v=f"{na}|{nb}"), 6)
+
+
 def run_shard(shard, tier):
     pane = core.import_pane()
     warnings.simplefilter('ignore')
     res = core.new_result()
     if shard.get('literals'):
         run_literals(pane, res)
+        run_same_name_classes(pane, res)
         return res
     ai = shard['a']
     for bi in range(ai + 1, len(POOL)):
@@ -414,6 +450,7 @@ def replay(cell):
     res = core.new_result()
     if cell['ai'] < 0:
         run_literals(pane, res)
+        run_same_name_classes(pane, res)
         out = [v for lst in res['violations'].values() for v in lst]
         return [v for v in out if v['cell'].get('bi') == cell['bi'] and v['cell'].get('form') == cell.get('form') and v['cell'].get('v') == cell.get('v')] or out
     lo, hi = sorted((cell['ai'], cell['bi']))
